@@ -751,8 +751,10 @@ def rule_layout(ctx, classes=SKETCH_CLASSES):
                        "" if okk else "creator %r, attacher %r" % (c["dims"], a["dims"]))
             # owners: creator views self.shm.buf, attacher views existing_shm.buf
             ctx.ob("layout", ctor, c["node"], "%s.%s buffer" % (cls.name, nm), "creator views its own block", c["owner"] == "self.shm.buf")
-            ctx.ob("layout", att, a["node"], "%s.%s buffer (attacher)" % (cls.name, nm), "attacher views the existing block",
-                   (a["owner"] or "").endswith("existing_shm.buf"))
+            opened = {n.targets[0].id for n in walk_no_nested(att.node) if isinstance(n, ast.Assign) and isinstance(n.targets[0], ast.Name)
+                      and isinstance(n.value, ast.Call) and dotted(n.value.func) == "SharedMemory"}
+            ctx.ob("layout", att, a["node"], "%s.%s buffer (attacher)" % (cls.name, nm), "attacher views the existing block it opened by name",
+                   any((a["owner"] or "") == o + ".buf" for o in opened))
         # requested size
         last = csegs[-1]
         if last["attr"] == "n_added_records":
@@ -930,13 +932,19 @@ def rule_attach_table(ctx):
             tag = n.test.comparators[0].value
             made = [dotted(c.func) for s in n.body for c in calls_in(s)]
             t2f[tag] = made[0] if made else None
+    # the tag / args variables of parallel_merging: first two elements of its descriptor triples
+    tagvar = argvar = None
+    for n in walk_no_nested(pm.node):
+        if isinstance(n, ast.Tuple) and len(n.elts) == 3 and isinstance(n.elts[2], ast.Attribute) and n.elts[2].attr == "name" \
+                and isinstance(n.elts[0], ast.Name) and isinstance(n.elts[1], ast.Name):
+            tagvar, argvar = n.elts[0].id, n.elts[1].id
     # class -> tag (isinstance dispatch in parallel_merging)
     c2t = {}
     for n in walk_no_nested(pm.node):
         if isinstance(n, ast.If) and isinstance(n.test, ast.Call) and dotted(n.test.func) == "isinstance" and len(n.test.args) == 2:
             cname = dotted(n.test.args[1])
             for s in n.body:
-                if isinstance(s, ast.Assign) and isinstance(s.targets[0], ast.Name) and s.targets[0].id == "sketch_type" and isinstance(s.value, ast.Constant):
+                if isinstance(s, ast.Assign) and isinstance(s.targets[0], ast.Name) and s.targets[0].id == tagvar and isinstance(s.value, ast.Constant):
                     c2t[cname] = s.value.value
     want = {"cms": ("CountMin", "CountMinLinear"), "hh": ("HeavyHitters", "HeavyHitters"), "hll": ("HyperLogLog", "HyperLogLog")}
     for tag, (fac, cname) in want.items():
@@ -957,7 +965,8 @@ def rule_attach_table(ctx):
                 src_obj = dotted(shmn.value.value) if isinstance(shmn.value, ast.Attribute) else None
                 if isinstance(tagn, ast.Constant):
                     # parallel_add: ("cms", cms_array[i].args, cms_array[i].shm.name)
-                    arr = {"cms": "cms_array", "hh": "hh_array", "hll": "hll_array"}.get(tagn.value)
+                    from .rules_par import sketch_roles
+                    arr = (sketch_roles(fn).get(tagn.value) or {}).get("array")
                     a_obj = argn.value if isinstance(argn, ast.Attribute) and argn.attr == "args" else None
                     s_obj = shmn.value.value if isinstance(shmn.value, ast.Attribute) and shmn.value.attr == "shm" else None
                     okk = (arr is not None and a_obj is not None and s_obj is not None and unparse(a_obj) == unparse(s_obj)
@@ -967,7 +976,7 @@ def rule_attach_table(ctx):
                         loops = [l for l in walk_no_nested(fn.node) if isinstance(l, ast.For) and l.lineno <= n.lineno <= l.end_lineno]
                         okk = bool(loops) and isinstance(loops[-1].target, ast.Name) and unparse(a_obj.slice) == loops[-1].target.id
                 else:
-                    okk = isinstance(tagn, ast.Name) and tagn.id == "sketch_type" and isinstance(argn, ast.Name) and argn.id == "sketch_args"
+                    okk = isinstance(tagn, ast.Name) and tagn.id == tagvar and isinstance(argn, ast.Name) and argn.id == argvar
                 ctx.ob("attach-table", fn, n, unparse(n, 80), "descriptor triple is (tag, args of that sketch, name of that sketch's block)", bool(okk))
 
 
